@@ -219,17 +219,15 @@ Definition caller_saved : list N := [0; 1; 2; 3; 4; 5; 6; 7; 8; 9; 10; 11; 12; 1
 Definition callee_saved : list N := [18; 19; 20; 21; 22; 23; 24; 25; 26; 27; 28]%N.
 Definition callee_marker (r : N) : Z := 1000000007 * (Z.of_N r + 1).
 
-(* [keep_lr] = true is only used to CLASSIFY a mismatch (would the run be right if the link register
-   survived the call?); the semantics proper is [keep_lr] = false *)
-Definition havoc_call (keep_lr : bool) (s : astate) (sp : Z) : astate :=
-  let regs' := fold_left (fun m r => PM.remove (N.succ_pos r) m) (if keep_lr then caller_saved else LR :: caller_saved) (regs s) in
+Definition havoc_call (s : astate) (sp : Z) : astate :=
+  let regs' := fold_left (fun m r => PM.remove (N.succ_pos r) m) (LR :: caller_saved) (regs s) in
   let stack' := PM.fold (fun k v acc => if Z.pos k - 1 <? sp then acc else PM.add k v acc) (stack s) (PM.empty _) in
   {| regs := regs'; spv := spv s; heap := heap s; stack := stack'; flags := None; out := out s; hw := hw s |}.
 
 Definition add_out (s : astate) (p : bool * Z) : astate :=
   {| regs := regs s; spv := spv s; heap := heap s; stack := stack s; flags := flags s; out := p :: out s; hw := hw s |}.
 
-Definition step_gen (keep_lr : bool) (im : image) (c : acode) (s : astate) : step_res :=
+Definition step (im : image) (c : acode) (s : astate) : step_res :=
   match c with
   | ADD d a b => arith3 Z.add s d a b
   | ADDI d a i => arith_imm Z.add s d a i
@@ -251,7 +249,7 @@ Definition step_gen (keep_lr : bool) (im : image) (c : acode) (s : astate) : ste
         need (spv s) "undef-sp" (fun sp =>
           if negb (sp mod 16 =? 0) then Fault "misaligned-stack-at-call" s
           else need (xget s 0%N) "undef-print-argument" (fun v =>
-            Next (havoc_call keep_lr (add_out s (String.eqb l "println_i64", v)) sp)) s) s
+            Next (havoc_call (add_out s (String.eqb l "println_i64", v)) sp)) s) s
       else Fault ("call-to-unknown " ++ l) s
   | ADR r l => match label_addr im l with Some t => Next (rset s r (Some t)) | None => Fault ("undefined-label " ++ l) s end
   | MOVR d a => Next (rset s d (rget s a))
@@ -280,8 +278,6 @@ Definition step_gen (keep_lr : bool) (im : image) (c : acode) (s : astate) : ste
   | LAB _ | TEXT | GLOBAL _ => Next s
   end.
 
-Definition step := step_gen false.
-
 Definition init_state (args : list Z) : astate :=
   let r0 := fold_left (fun m r => PM.add (N.succ_pos r) (callee_marker r) m) callee_saved (PM.empty Z) in
   let r1 := PM.add (N.succ_pos LR) RET_MARKER (PM.add (N.succ_pos 0) HEAP_BASE r0) in
@@ -302,41 +298,40 @@ Definition final_check (s : astate) : outcome :=
 
 (* two-level fuel (outer * inner steps) so that no huge unary number is ever built *)
 Inductive chunk_res := Finished (o : obs) (s : astate) | More (pc : positive) (s : astate).
-Fixpoint run_chunk (keep_lr : bool) (fuel : nat) (im : image) (pc : positive) (s : astate) : chunk_res :=
+Fixpoint run_chunk (fuel : nat) (im : image) (pc : positive) (s : astate) : chunk_res :=
   match fuel with
   | O => More pc s
   | S f =>
       match PM.find pc (code im) with
       | None => Finished (finish (out s) (OStuck "fell-off-the-end")) s
       | Some c =>
-          match step_gen keep_lr im c s with
-          | Next s' => run_chunk keep_lr f im (Pos.succ pc) s'
-          | Jump s' i => run_chunk keep_lr f im i s'
+          match step im c s with
+          | Next s' => run_chunk f im (Pos.succ pc) s'
+          | Jump s' i => run_chunk f im i s'
           | Done s' => Finished (finish (out s') (final_check s')) s'
           | Fault w s' => Finished (finish (out s') (OStuck w)) s'
           | Undefd w s' => Finished (finish (out s') (OUndef w)) s'
           end
       end
   end.
-Fixpoint run (keep_lr : bool) (outer inner : nat) (im : image) (pc : positive) (s : astate) : obs * astate :=
+Fixpoint run (outer inner : nat) (im : image) (pc : positive) (s : astate) : obs * astate :=
   match outer with
   | O => (finish (out s) OOutOfFuel, s)
   | S o =>
-      match run_chunk keep_lr inner im pc s with
+      match run_chunk inner im pc s with
       | Finished ob s' => (ob, s')
-      | More pc' s' => run keep_lr o inner im pc' s'
+      | More pc' s' => run o inner im pc' s'
       end
   end.
 
-Definition run_a64_gen (keep_lr : bool) (outer inner : nat) (cs : list acode) (args : list Z) : obs * astate :=
+Definition run_a64 (outer inner : nat) (cs : list acode) (args : list Z) : obs * astate :=
   let im := mk_image cs in
   match find_label (labels im) "asm_main" with
   | None => ((([] : prints), OStuck "no-asm_main"), init_state args)
   | Some i =>
       if Nat.ltb 7 (List.length args) then ((([] : prints), OStuck "too-many-arguments"), init_state args)
-      else run keep_lr outer inner im i (init_state args)
+      else run outer inner im i (init_state args)
   end.
-Definition run_a64 := run_a64_gen false.
 
 (* straight-line execution (no control transfer), used by the instruction-selection lemmas *)
 Fixpoint run_straight (im : image) (cs : list acode) (s : astate) : mres astate :=
